@@ -76,6 +76,22 @@ class Ctx:
     self.results.append(Result(rule, where, construct, st, detail, data))
     return holds
 
+  def borrow(self, fn, to_rule, keep=None, *args):
+    """Runs a sibling property's rule function and files the rows selected by keep(result) under to_rule
+    (shared obligation: the same construct is a necessary condition of both properties); other rows it produced are dropped."""
+    n0 = len(self.results)
+    fn(self, *args)
+    new = self.results[n0:]
+    del self.results[n0:]
+    got = 0
+    for r in new:
+      if keep is None or keep(r):
+        r.detail = "[shared with %s] %s" % (r.rule, r.detail)
+        r.rule = to_rule
+        self.results.append(r)
+        got += 1
+    return got
+
   def expect(self, rule, n, reason=""):
     """Fail closed when a rule matches fewer than n instances."""
     self.min_counts[rule] = (n, reason)
